@@ -168,7 +168,12 @@ func TestC01_FirstMatch(t *testing.T) {
 	if vkThorough() {
 		npk = 40
 	}
+	spent := vrBudget(t)
 	rapid.Check(t, func(t *rapid.T) {
+		if spent() {
+			vkClass(c01Unit, "skipped_wall_clock_budget")
+			return
+		}
 		c01Check(t, c01Unit, vrOpts{}, npk, "")
 	})
 }
@@ -177,7 +182,12 @@ func TestC01_FirstMatch(t *testing.T) {
 // that domain bitmap word boundaries (31/32/63/64/.../1023) and the tail of the
 // match-set array are exercised.
 func TestC01_SizeSweep(t *testing.T) {
+	spent := vrBudget(t)
 	rapid.Check(t, func(t *rapid.T) {
+		if spent() {
+			vkClass("C01.sweep", "skipped_wall_clock_budget")
+			return
+		}
 		c01Check(t, "C01.sweep", vrOpts{Sweep: true}, 40, "")
 	})
 }
